@@ -13,7 +13,8 @@ targets = sys.argv[1:] or sorted(p[len(S) + 1:] for p in glob.glob(S + "/C??/[0-
 OVERRIDE = {"C04/1": ["C09"], "C11/3": ["C11", "C01"]}
 EXTRA = {"C02/3": ["C06"], "C03/1": ["C05"], "C10/1": ["C05"], "C19/1": ["C13"], "C03/2": ["C10"], "C03/3": ["C10"], "C10/2": ["C10"], "C07/1": ["C07", "C17"], "C17/1": ["C17", "C07"],
          "C01/4": ["C14"], "C02/5": ["C06"], "C03/5": ["C05", "C10"], "C05/4": ["C10"],
-         "C03/7": ["C10"], "C04/6": ["C01", "C10"], "C09/7": ["C15"], "C17/6": ["C04"]}
+         "C03/7": ["C10"], "C04/6": ["C01", "C10"], "C09/7": ["C15"], "C17/6": ["C04"],
+         "C02/7": ["C05"], "C08/6": ["C14"], "C11/7": ["C01"]}
 def sh(cmd, **kw):
     return subprocess.run(cmd, shell=True, stdout=subprocess.PIPE, stderr=subprocess.STDOUT, text=True, **kw)
 for t in targets:
